@@ -7,6 +7,7 @@ CONSTANTS
   ScanMemo = "none"
   OperandScope = "per call"
   SubqueryColumns = "per table object"
+  ResultScope = "per execute call"
   JobSet = ""
   Family = "all"
 INIT SInit
